@@ -18,13 +18,50 @@ def finding_key(req, obs, detail):
         # `a < a > (X)`: any right operand that is printed in parentheses gives the same misreading
         # (also when the operand only *starts* with `(`, e.g. `a < a > (++a)++`, where the call ends up below a postfix node)
         pre = "tree-differs[bin:GreaterThan->call] ret (bin GreaterThan (bin LessThan (id a) (id a)) "
-        if re.match(r"tree-differs\[bin:GreaterThan->[^\]]*\] ret \(bin GreaterThan \(bin LessThan \(id a\) \(id a\)\) ", key):
+        # (a cast as right operand also starts with `(`: `a < a > (T)a`; when the would-be argument list does not parse the
+        # text is rejected instead of regrouped)
+        if re.match(r"(tree-differs\[bin:GreaterThan->[^\]]*\]|rejected-by-parser) ret \(bin GreaterThan \(bin LessThan \(id a\) \(id a\)\) ", key):
             key = pre + "(bin BitwiseAnd (id a) (id a)))"
         # the same misreading in any position (`f(a < b, c > (d))` reads as `f(a<b, c>(d))`): the re-read tree has
         # template arguments although the original has none at all
         eot = re.compile(r"\((?:E|B|T) \(")
         if key.startswith("tree-differs") and " ==> " in (obs or "") and not eot.search(req) and eot.search(obs.split(" ==> ", 1)[1]):
             key = pre + "(bin BitwiseAnd (id a) (id a)))"
+        # an expression in an expression-or-type position (template argument, sizeof) is printed with format_expression
+        # and read under Terminator::TypeList: an exposed `>`-family operator, `,` or `<` is misread whatever carries the
+        # position (call / type of a cast / nested type) — one key per operator family
+        exact = ("rejected-by-parser ret (sizeof (E (bin RightShift (id a) (id a))))",
+                 "rejected-by-parser ret (cast (tyt (n S) (E (bin RightShift (id a) (id a)))) (id a))")
+        fam = re.search(r"\(E \(bin (RightShift|GreaterThan|GreaterEqual|Sequence|LessThan) ", key)
+        if fam and key not in exact and not key.startswith("src "):
+            op = fam.group(1)
+            if op == "Sequence":
+                key = "tree-differs[list-length] ret (call (id a) ((E (bin Sequence (id a) (id a)))) ())"
+            elif op == "LessThan":
+                key = "tree-differs[call->bin:LessThan] ret (call (id a) ((E (bin LessThan (id a) (id a)))) ())"
+            else:
+                key = "rejected-by-parser ret (call (id a) ((E (bin RightShift (id a) (id a)))) ())"
+            return key
+        # an attribute argument that is a comma expression: printed with format_expression, read with parse_expression_no_seq
+        # (statement stream: whatever statement carries the attribute; source stream: `[a((a, a))]`)
+        if (key.startswith("st ") and re.search(r"\(attr [12] \(n [^)]*\) \([^\n]*\(bin Sequence ", key)) or \
+                (key.startswith("src ") and re.search(r"\[ \[? ?\w+ \( \( \w+ , \w+ \) \) \]", key)):
+            return "st tree-differs[list-length] attribute argument (bin Sequence (id a) (id b))"
+        # source stream, three more printer defects found with the broadened module generator (one key each, whatever else the
+        # 1-minimal program keeps around the construct)
+        if key.startswith("src "):
+            if re.search(r"template < [^>]* > \[ ", key) and "rejected-by-parser" in key:
+                return "src rejected-by-parser template < a > [ a ] a a ( ) { }"
+            if re.search(r"struct \w+ : \w+(?: , \w+)* \{", key) and "tree-differs" in key:
+                return "src tree-differs[module] struct a { } ; struct a : a { } ;"
+            if re.search(r"enum \w+ \{[^}]*= \( \S+ , ", key):
+                return "src rejected-by-parser enum a { a = ( a , a ) } ;"
+            if re.search(r"\w+ (?:\[ \S+ \] )?(?:: \w+ )?= \( \S+ , \S+ \) [,)]", key) and "rejected-by-parser" in key:
+                return "src rejected-by-parser a a ( a a = ( a , a ) ) { }"
+        # definition stream: a default argument that is a comma expression is the same printer defect as the source-stream
+        # class above (printed bare with format_expression, `float p = y, 36`, read with parse_expression_no_seq)
+        if key.startswith("def rejected-by-parser ") and re.search(r"\(param [^\n]*\(def \(bin Sequence ", key):
+            return "src rejected-by-parser a a ( a a = ( a , a ) ) { }"
         # source stream: a declarator whose array size is a parenthesised comma expression (one class, whatever
         # statement the 1-minimal program wraps around it)
         if key.startswith("src rejected-by-parser ") and re.search(r"(?:\ba|>|,) a \[ \( \w+ , \w+ \) \]", key):
@@ -42,46 +79,87 @@ def harness_args(tier, seed):
 
 SPEC = {
     "id": "C09",
-    "gens": ["FmtTables", "ParseTables"],
-    "lean_modules": ["RsslVerif.Thm.C09"],
-    "level_note": "roundtrip_expr_partial: WF excludes LitOk-failing literals only; casts, sizeof, template "
-                  "arguments, braced init, statements and declarators are reached by the correspondence run only",
+    "gens": ["FmtTables", "ParseTables", "SyntaxTables", "LexTables"],
+    "lean_modules": ["RsslVerif.Thm.C09", "RsslVerif.Thm.C10", "RsslVerif.Lemmas.LiteralText"],
+    "level_note": "roundtrip_xexpr_partial / roundtrip_stmt_partial / roundtrip_decl_partial / roundtrip_function_partial / "
+                  "roundtrip_struct_partial: WF / WFS / WFVarDef / WFFn / WFStruct are decidable syntactic carve-outs "
+                  "(notes/C09.md); integer literal text is proved (literal_roundtrip_int), float literal text, enums, cbuffers, "
+                  "globals and template parameter lists are reached by the correspondence run only",
     "theorems": [T + n for n in [
         "binToks_lexes", "unTok_lexes", "tables_agree", "assoc_agrees", "ternary_level", "unary_tables_agree",
         "glue_prefix_prefix", "glue_postfix_next", "glue_needs_space", "paren_rule_matches_grammar",
         "roundtrip_expr_partial", "roundtrip_subexpr_partial", "roundtrip_comma_positions_partial", "literal_roundtrip_partial", "negative_literals_break",
-        "decimal_roundtrip"]],
+        "decimal_roundtrip",
+        # full expression language (Model/FormatFull + Model/ParseFull)
+        "source_fingerprints", "modifier_tables_agree", "roundtrip_xexpr_partial", "roundtrip_typeid_partial",
+        "sizeof_shift_breaks", "template_arg_shift_breaks", "template_arg_comma_regroups", "template_arg_less_regroups",
+        "less_greater_paren_regroups",
+        # statements and local variable definitions (Model/FormatStmt + Model/ParseStmt)
+        "roundtrip_stmt_partial", "roundtrip_block_partial", "roundtrip_decl_partial", "dangling_else_regroups",
+        "attribute_comma_regroups", "for_init_pointer_reads_as_expr",
+        # function and struct definitions (Model/FormatDef + Model/ParseDef)
+        "roundtrip_param_partial", "roundtrip_function_partial", "roundtrip_struct_partial", "default_arg_comma_rejected",
+        # text of integer literals through C10's lexer model
+        "literal_roundtrip_int"]] + [
+        # "every literal reads back with the same value and type": the reading half is property C10's; its literal
+        # theorems and the shape obligations of the lexer's numeric functions are C09 obligations too (a change of
+        # calculate_float64_from_parts / literal_*_int breaks them here as well)
+        "RsslVerif.Thm.C10." + n for n in [
+            "int_value_exact", "int_overflow_rejected", "int_rejected_only_when_too_large", "literalInt_radix",
+            "token_numeric_dispatch", "float_parts_shape_as_modelled", "lex_float_nearest", "nearest64_correct",
+            "nearest_correct", "nearest_exact_on_representable"]],
     "harness": "c09",
     "harness_args": harness_args,
     "nontrivial": nontrivial,
     "finding_key": finding_key,
-    "level_text": "Proof (expression level): the formatter model (format_subexpression with the generated precedence / "
-                  "associativity / side tables) and the parser model (expr_p1..p15 with the generated parse_op arms) are proved "
-                  "inverse by structural induction for every tree over literals, identifiers, all unary and binary operators, "
-                  "the conditional, member access, subscripts and calls, at every nesting depth and in front of every expression "
-                  "terminator; the table-level obligations (precedence <-> level, associativity, spelling <-> tokens, operator "
-                  "glue) are decided over the regenerated tables. Casts, sizeof, template arguments, literals' text "
-                  "and statements/declarators are covered by the correspondence run only.",
-    "rule": "requests = (context, expression tree) built directly as rssl_ast values, printed by the real "
-            "rssl_formatter::format (HLSL) inside `return e;` / `e;` / `int v = e;` / `g(e)` / `g[e]`, re-read by the real "
-            "preprocess_fragment + prepare_tokens + parse, locations stripped, ambiguous parse branches resolved with the "
-            "type names of the original tree; oracle = same tree and identical second print. Streams: exhaustive depth<=3 "
-            "over 3 leaves x 6 unary x 12 binary operators + ternary/subscript/member/call; random depth 2-6 over all "
-            "operators; random with exporter-only shapes (negative literals, casts, sizeof, template arguments, braced init). "
-            "non-trivial = at least two operator nodes",
+    "level_text": "Proof: the formatter models (format_subexpression, format_type_id, format_declarator, format_statement, "
+                  "format_variable_definition, format_initializer, format_attribute, format_function, format_function_param, "
+                  "format_struct, with the generated precedence / associativity / "
+                  "side / modifier / keyword tables) and the parser models (expr_p1..p15 with the generated parse_op arms, cast, "
+                  "sizeof, template arguments, expression-or-type, type ids, declarators, parse_statement_kind, statement_block, "
+                  "parse_vardef, parse_initializer, attributes, parse_function_definition, parse_function_param, "
+                  "parse_struct_definition / parse_struct_entry) are proved inverse by mutual structural induction: for every "
+                  "expression tree over all node kinds except BracedInit (roundtrip_expr_partial on the first model, "
+                  "roundtrip_xexpr_partial with casts / sizeof / template arguments / type ids), every statement tree of every kind "
+                  "with attributes (roundtrip_stmt_partial, roundtrip_block_partial) and every local variable definition with "
+                  "pointer / reference / array declarators and aggregate initialisers (roundtrip_decl_partial), every function "
+                  "definition with attributes, in / out / inout parameters with declarators, semantics and default values, and any "
+                  "body (roundtrip_function_partial), every struct of member definitions and methods (roundtrip_struct_partial), at "
+                  "every nesting depth, for every set of type names. The carve-outs (WF, WFS, WFVarDef, WFFn, WFStruct) are decidable and syntactic; for the shapes "
+                  "they exclude that really fail (operators exposed in template / sizeof arguments, a < b > (c), dangling else, comma "
+                  "in attribute arguments and default values) the negation is proved with a witness. Table-level obligations (precedence <-> level, "
+                  "associativity, spelling <-> tokens, operator glue, modifier spelling <-> keyword <-> parser arm) are decided over "
+                  "the regenerated tables, and 63 hand-modelled functions are fingerprinted. The text of non-negative integer literals of every suffix is "
+                  "proved to read back through C10's lexer model (literal_roundtrip_int); enums, cbuffers, globals, template "
+                  "parameter lists and the text of float literals are covered by the correspondence run (and C10's cited theorems) only.",
+    "rule": "requests = (context, expression tree) / statement tree / function or struct definition tree built directly as rssl_ast values, or random source "
+            "modules; printed by the real rssl_formatter::format (HLSL), re-read by the real preprocess_fragment + prepare_tokens "
+            "+ parse, locations stripped, ambiguous parse branches / ambiguous statements resolved with the type names of the "
+            "original tree; oracle = same tree and identical second print. Streams: exhaustive depth<=3 over 3 leaves x 6 unary x "
+            "12 binary operators + ternary/subscript/member/call; random depth 2-6 over all operators in 5 contexts; random with "
+            "exporter-only shapes; casts / sizeof / template calls over types with all modifiers, nested template arguments and "
+            "declarators; literals of every kind over the whole value range; statement trees and function / struct definition trees of random programs; random source "
+            "modules (statements, declarators, functions with attributes / templates / semantics / defaults, structs with "
+            "methods and base types, enums, cbuffers, namespaces, resource globals). non-trivial = at least two operator nodes",
     "trusted_base": [
         "Lean 4.33 kernel; axioms propext / Classical.choice / Quot.sound only (audited by #print axioms)",
-        "tools/gens/c09.py (FmtTables: operator enums, get_expression_precedence, get_precedence_associativity, the "
-        "requires_paren rule, sign characters, child (precedence, side) constants, spellings; ParseTables: Token enum, lexer "
-        "symbol tables, unaryop_prefix, every expr_pN::parse_op arm list with guards, shape checks of expr_p1/p2/p13/p14) — "
-        "re-run on /repo's working tree every time",
-        "hand-written Model/Format.lean (format_subexpression, format_literal subset) and Model/Parse.lean (expr_p1..p15) — "
-        "tied to the code by the correspondence run only",
-        "Rust f32/f64 Display (shortest round trip) and the lexer's literal reading (C10)",
+        "tools/gens/c09.py (FmtTables, ParseTables as before; SyntaxTables: TypeModifier variants and Debug spellings, lexer "
+        "keyword table, parse_type_modifiers_before/after arms, cast / sizeof / call arms and alternative orders (shape "
+        "checks), sha256 fingerprints of 63 hand-modelled functions) - re-run on /repo's working tree every time",
+        "hand-written Model/Format.lean, Model/Parse.lean (first model), Model/FormatFull.lean, Model/ParseFull.lean (casts, "
+        "sizeof, template arguments, types, declarators), Model/FormatStmt.lean, Model/ParseStmt.lean (statements, local "
+        "definitions), Model/FormatDef.lean, Model/ParseDef.lean (functions, parameters, structs) - tied to the code by the fingerprints and the correspondence run",
+        "Rust f32/f64 Display (shortest round trip) and the lexer's literal reading (C10, whose literal theorems are cited)",
     ],
     "assumptions": [
         "a scoped identifier and a literal are single abstract tokens in the model",
-        "the parser model omits casts, sizeof, template arguments and expr_p1_call's template-argument attempt; "
-        "requests where they matter are answered `unsupported` by the model and judged by the oracle only",
+        "select (longest match) is modelled as: the cast alternative of expr_p2 when it succeeds, else expr_p1 - the two "
+        "agree unless `( X )` + postfix operators reaches further than a successful `( T )` operand (argued in notes, never "
+        "observed in 523 k thorough cases); how far a failed alternative got is not represented (failures are `none`)",
+        "type names: the model is run with the set W of names that are types; the real parser returns all readings and the "
+        "type checker picks with W (the harness resolves the same way)",
+        "white space of statements is compared collapsed; BracedInit, attributes on declarators, location annotations of "
+        "locals, StaticSampler, template parameter lists, const / volatile methods, register / packoffset annotations and "
+        "struct base types are answered `unsupported` by the model and judged by the oracle only",
     ],
 }
